@@ -249,6 +249,8 @@ fn structural_faults(b: &Base) -> Vec<Fault> {
 fn foreign_chars() -> Vec<u32> {
     let mut v: Vec<u32> = (0u32..128).filter(|&c| b64_val(c as u8).is_none() && c != b',' as u32 && c != b';' as u32).collect();
     v.extend(['é' as u32, '€' as u32, '😀' as u32, 0x80, 0x7ff, 0xffff]);
+    // code points whose low byte (or whose last UTF-8 byte) looks like a base64 digit
+    v.extend([0x0141, 0x0167, 0x012B, 0x012F, 0x0430, 0x2041, 0x10041, 0x00C1, 0x0181]);
     v
 }
 
@@ -371,7 +373,7 @@ pub fn run(run: &mut Run) -> Finish {
 
     Finish {
         level: "fault_enumeration",
-        rule: "E1 fault enumeration on the real decoder. Bases: every well-formed document with <= 2 lines x <= 2 segments of 1/4/5 fields for all (sources, names) array sizes in {0,1,2}^2 (each base must decode and all its references resolve). Faults, each at every site where it applies: arity 2/3/6/7; source and name running index set to len, len+1, -1, -len-1, 2^32+valid, -2^32+valid, 2^33+valid (other segments keep their absolute values); continuation bit on the segment's last digit; a field re-encoded with 14 and 15 digits; every non-alphabet ASCII byte except , ; and six multi-byte characters inserted at every offset. Then every ordered pair of structural faults at different sites and structural x foreign pairs on the two-segment bases. Oracle: decode_slice returns Err. Distinct by construction; every faulty document is non-trivial; class = fault type(s).".into(),
+        rule: "E1 fault enumeration on the real decoder. Bases: every well-formed document with <= 2 lines x <= 2 segments of 1/4/5 fields for all (sources, names) array sizes in {0,1,2}^2 (each base must decode and all its references resolve). Faults, each at every site where it applies: arity 2/3/6/7; source and name running index set to len, len+1, -1, -len-1, 2^32+valid, -2^32+valid, 2^33+valid (other segments keep their absolute values); continuation bit on the segment's last digit; a field re-encoded with 14 and 15 digits; every non-alphabet ASCII byte except , ; and fifteen multi-byte characters (incl. code points whose low byte is a base64 digit) inserted at every offset. Then every ordered pair of structural faults at different sites and structural x foreign pairs on the two-segment bases. Oracle: decode_slice returns Err. Distinct by construction; every faulty document is non-trivial; class = fault type(s).".into(),
         assumptions: vec!["JSON escaping of inserted characters is done by serde_json, so the decoder sees the raw character in the mappings string".into()],
         coverage_extra: json!({"bases": nb, "two_segment_bases": n2, "foreign_characters": fc.len()}),
     }
